@@ -64,6 +64,13 @@ func groupWorld(r *R) {
 		rg := &groupReg{id: i, kind: r.Choose(4, "kind")}
 		rg.interval = time.Duration(1+r.Choose(4, "interval")) * 50 * time.Millisecond
 		rg.jitter = time.Duration(r.Choose(3, "jitter")) * 10 * time.Millisecond
+		if r.Choose(6, "wide-jitter") == 5 {
+			rg.jitter = rg.interval * time.Duration(1+r.Choose(3, "wide-jitter-x")) // the next period may come out <= 0
+		}
+		if rg.kind == 3 && r.Choose(4, "long-interval") == 3 {
+			rg.interval = 3 * time.Second // far longer than the settle window: only triggers make it run again soon
+			rg.jitter = 0
+		}
 		rg.runTime = []time.Duration{0, 5 * time.Millisecond, 30 * time.Millisecond, 120 * time.Millisecond}[r.Choose(4, "runtime")]
 		rg.respect = r.Choose(2, "respect") == 1
 		if !settled && r.Choose(2, "late-reg") == 1 {
@@ -168,9 +175,10 @@ func groupWorld(r *R) {
 		t := t
 		calls := 1 + r.Choose(5, "trig-calls")
 		type tc struct {
-			reg   int
-			spin  int
-			sleep time.Duration
+			reg    int
+			spin   int
+			sleep  time.Duration
+			inARun bool // wait until a run of that registration is in progress, then trigger
 		}
 		var plan []tc
 		for k := 0; k < calls; k++ {
@@ -178,6 +186,7 @@ func groupWorld(r *R) {
 			if r.Choose(3, "trig-sleep") == 2 {
 				c.sleep = time.Duration(1+r.Choose(10, "trig-sleep-d")) * 19 * time.Millisecond
 			}
+			c.inARun = settled && r.Choose(4, "trig-in-run") == 3
 			plan = append(plan, c)
 		}
 		sim.GoNamed(fmt.Sprintf("triggerer%d", t), func() {
@@ -190,6 +199,13 @@ func groupWorld(r *R) {
 				rg := regs[c.reg]
 				if rg.trigger == nil {
 					continue
+				}
+				if c.inARun && rg.runTime > 0 && (rg.kind == 3 || len(rg.trigCalls) > 0) {
+					// (a timer-started run of a PeriodicOrTrigger registration, or a run that an
+					// earlier trigger started)
+					for limit := sim.Now() + 4*time.Second; rg.running == 0 && !stopped() && sim.Now() < limit; {
+						sim.Sleep(7*time.Millisecond, "trigger-in-run")
+					}
 				}
 				sim.Yield("trigger")
 				s := sim.Seq()
